@@ -24,7 +24,8 @@ UKeys   == { B("ca"), B("hc"), B("1a"), B("CA"), B("c1"), B("c"), B("cal"), B(""
 UVals   == { <<>>, <<B("buddhist")>>, <<B("true")>>, <<B("islamic"), B("civil")>>, <<B("Gregory")>>,
              <<B("ab")>>, <<B("toolongxx")>>, <<B("a*c")>>, <<B("islamic"), B("true")>> }
 Attrs   == { B("foo"), B("bar"), B("FOO"), B("abcdefgh"), B("ab"), B("abcdefghi"), B("fo-o"), B(""), B("zzz") }
-TLangs  == { B("en"), B("en-US"), B("EN-latn-us-valencia"), B("und"), B("x"), B("en-"), B(""), B("de-1996-bavarian") }
+TLangs  == { B("en"), B("en-US"), B("EN-latn-us-valencia"), B("und"), B("x"), B("en-"), B(""), B("de-1996-bavarian"),
+             B("abcdefgh-Latn"), B("abcde-419") }
 TKeys   == { B("h0"), B("k0"), B("H0"), B("0h"), B("h"), B("hh"), B("") }
 TVals   == { <<>>, <<B("hybrid")>>, <<B("true")>>, <<B("googlevk"), B("extended")>>, <<B("ab")>>,
              <<B("Windows")>>, <<B("a"), B("b")>> }
@@ -33,7 +34,8 @@ Langs   == { B("en"), B("und"), B("EN"), B("abcd"), B("e"), B("abcdefgh"), B("sr
 Scripts == { B("Latn"), B("latn"), B("Lat"), B("Cyrl"), B("1234") }
 Regions == { B("US"), B("us"), B("419"), B("4190"), B("u1") }
 VarLists == { <<>>, <<B("valencia")>>, <<B("1996"), B("valencia")>>, <<B("valencia"), B("1996"), B("valencia")>>,
-              <<B("abcd")>>, <<B("VALENCIA")>>, <<B("valencia"), B("x")>> }
+              <<B("abcd")>>, <<B("VALENCIA")>>, <<B("valencia"), B("x")>>, <<B("1996"), B("1996"), B("valencia")>>,
+              <<B("1ABC"), B("1abc")>> }
 Variants == { B("valencia"), B("1996"), B("abcd"), B("VALENCIA") }
 
 OpsU == { OpKV("set_keyword", k, v) : k \in UKeys, v \in UVals }
